@@ -305,6 +305,15 @@ class SchemaGen:
 			f'@discriminator(tag{", version" if two_part else ""})', '@is_aligned', f'abstract struct {base}', f'\t{size_name} = uint32',
 			'\tentity_reserved_1 = make_reserved(uint32, 0)', f'\towner = {self.rng.choice(self.byte_aliases)[0]}' if self.byte_aliases else '\towner = uint64',
 			'\tversion = uint8', f'\ttag = {type_enum}']
+		# members of the base that `sort()` of a derived struct has to reach: a keyed array and / or a struct holding one
+		keyed_leaves = [(leaf, keys) for leaf, keys in self.leaf_structs if keys]
+		if keyed_leaves and ((self.rng.random() < 0.5) if self.variant is None else (1 == (self.variant // 2) % 2)):
+			leaf, keys = self.rng.choice(keyed_leaves)
+			lines += ['\tbase_entries_count = uint8', f'\t@sort_key({self.rng.choice(keys)[0]})', f'\tbase_entries = array({leaf}, base_entries_count)']
+			self.features.add('abstract-base-with-keyed-array')
+			if self.var_structs and self.rng.random() < 0.5:
+				lines.append(f'\tbase_nested = {self.rng.choice(self.var_structs)}')
+				self.features.add('abstract-base-with-struct-member')
 		self.emit(*[line for line in lines if line is not None])
 		children = []
 		for index in range(child_count):
